@@ -618,8 +618,8 @@ func run(c Case) pbt.Verdict {
 
 func TestProp(t *testing.T) {
 	pbt.Main(t, pbt.Spec{
-		ID: "C15",
-		Rule: "histories of <=40 operations (ReservePieces with generated candidate mask, per-piece peer counts and endgame flag; MarkUnsent; MarkInvalid; Clear; ClearPeer; clock advances of 1-6 s or 11-14 s against a 10.5 s request timeout) over 2-4 peers (agent/origin mix), 3-8 pieces, both selection policies and pipeline limits 1-3, applied to the real piecerequest.Manager on a mock clock; a reference model of live requests is advanced with the pieces the manager actually returned; every ReservePieces result is checked against the model (<= remaining quota, inside candidates, no piece outstanding at the same peer, outside endgame no piece outstanding anywhere) and after every step GetFailedRequests and PendingPieces of every peer are compared with the model; evaluations = steps; non-trivial = the history re-reserves a (peer, piece) whose earlier request expired or was marked failed and later removes that peer with ClearPeer; distinct by case hash",
+		ID:   "C15",
+		Rule: "histories of <=40 operations (ReservePieces with generated candidate mask, per-piece peer counts and endgame flag; MarkUnsent; MarkInvalid; Clear; ClearPeer; clock advances of 1-6 s or 11-14 s against a 10.5 s request timeout) over 2-4 peers (agent/origin mix), 2-8 pieces, both selection policies and pipeline limits 1-3, applied to the real piecerequest.Manager on a mock clock; a reference model of live requests is advanced with the pieces the manager actually returned; every ReservePieces result is checked against the model (<= remaining quota, inside candidates, no piece outstanding at the same peer, outside endgame no piece outstanding anywhere) and after every step GetFailedRequests and PendingPieces of every peer are compared with the model; evaluations = steps; non-trivial = the history re-reserves a (peer, piece) whose earlier request expired or was marked failed and later removes that peer with ClearPeer; distinct by case hash",
 		Assumptions: []string{
 			"reference model of live piece requests written from the property statement",
 			"the clock never stands exactly on a request's expiry instant (timeout 10.5 s, whole-second advances)",
